@@ -3,6 +3,7 @@ package c06
 import (
 	"errors"
 	"fmt"
+	"reflect"
 	"strings"
 	"sync/atomic"
 	"time"
@@ -27,18 +28,91 @@ const stepBudget = 20000
 
 var errBudget = errors.New("verif step budget exhausted")
 
+var errCycle = errors.New("verif: self-containing container (open finding C06-cyclic-container-print)")
+
 type stepDbg struct {
 	visits int64
 	budget int64
+	// open finding C06-cyclic-container-print: a container made to contain itself kills the process as soon as it is printed.
+	// The roots assigned to are watched; once one of them holds a cycle the evaluation is stopped and the case discarded.
+	watch  atomic.Value // string: root identifier of the last assignment target
+	cyclic int32
 }
 
 func (d *stepDbg) VisitState(node *parser.ASTNode, vs parser.Scope, tid uint64) util.TraceableRuntimeError {
 	if atomic.AddInt64(&d.visits, 1) > d.budget {
 		return util.NewRuntimeError("c06", errBudget, "more than the allowed node visits", node).(util.TraceableRuntimeError)
 	}
+	if atomic.LoadInt32(&d.cyclic) != 0 {
+		return util.NewRuntimeError("c06", errCycle, "", node).(util.TraceableRuntimeError)
+	}
+	if root, _ := d.watch.Load().(string); root != "" && vs != nil {
+		if v, ok, _ := vs.GetValue(root); ok && hasCycle(v, nil, 0) {
+			atomic.StoreInt32(&d.cyclic, 1)
+			return util.NewRuntimeError("c06", errCycle, "", node).(util.TraceableRuntimeError)
+		}
+	}
+	if node.Name == parser.NodeASSIGN && len(node.Children) > 0 {
+		l := node.Children[0]
+		if l.Name == parser.NodeLET && len(l.Children) > 0 {
+			l = l.Children[0]
+		}
+		if l.Name == parser.NodeIDENTIFIER && l.Token != nil && len(l.Children) > 0 {
+			d.watch.Store(l.Token.Val)
+		}
+	}
 	return nil
 }
 func (d *stepDbg) exhausted() bool { return atomic.LoadInt64(&d.visits) > d.budget }
+func (d *stepDbg) sawCycle() bool  { return atomic.LoadInt32(&d.cyclic) != 0 }
+
+type contID struct {
+	p uintptr
+	n int
+}
+
+// hasCycle reports whether printing v would recurse forever.
+func hasCycle(v interface{}, path []contID, depth int) bool {
+	if depth > 64 {
+		return true
+	}
+	var id contID
+	switch c := v.(type) {
+	case []interface{}:
+		if len(c) == 0 {
+			return false
+		}
+		id = contID{reflect.ValueOf(c).Pointer(), len(c)}
+	case map[interface{}]interface{}:
+		if len(c) == 0 {
+			return false
+		}
+		id = contID{reflect.ValueOf(c).Pointer(), -1}
+	default:
+		return false
+	}
+	for _, p := range path {
+		if p == id {
+			return true
+		}
+	}
+	path = append(path, id)
+	switch c := v.(type) {
+	case []interface{}:
+		for _, e := range c {
+			if hasCycle(e, path, depth+1) {
+				return true
+			}
+		}
+	case map[interface{}]interface{}:
+		for _, e := range c {
+			if hasCycle(e, path, depth+1) {
+				return true
+			}
+		}
+	}
+	return false
+}
 
 func (d *stepDbg) HandleInput(string) (interface{}, error)                 { return nil, nil }
 func (d *stepDbg) StopThreads(time.Duration) bool                          { return false }
@@ -76,6 +150,7 @@ type outcome struct {
 }
 
 func (o *outcome) exhausted() bool { return o.dbg != nil && o.dbg.exhausted() }
+func (o *outcome) sawCycle() bool  { return o.dbg != nil && o.dbg.sawCycle() }
 
 // anyErr returns the error value the round produced (nil if it completed).
 func (o *outcome) anyErr() error {
